@@ -11,8 +11,7 @@
 (* All of them are written like the code they describe (sampling stride etc.).    *)
 EXTENDS PackedSeq, TLC
 
-KnownIds == {"C09-KF1", "C09-KF2", "C09-KF3", "C09-KF4", "C09-KF5", "C09-KF6", "C09-KF7",
-             "C09-KF8", "C09-KF9", "C09-KF10", "C09-KF11"}
+KnownIds == {}
 
 HasD(subj) == "d" \in DOMAIN subj
 Fam(subj, F) == subj.fam \in F
